@@ -156,6 +156,23 @@ CLAIMED = {
              "READ(10)) are outside the theorem (the library truncates them silently); keyword flags are passed explicitly in the theorem, "
              "defaulted forms are covered by the correspondence runs; WRITE SAME with 0 blocks is refused by the Spec target (WSNZ=1).",
         technique="Coq refinement proof by symbolic evaluation of the regenerated stack + vm_compute correspondence against a simulated target"),
+    "C04": dict(
+        text="Machine-checked proof (Coq): 33 response / parameter-data formats are stated in Spec/RespFormats.v in the standards' notation "
+             "(byte, msb, width; written by hand from SPC-4/SBC-3/SMC-3/MMC-6). For every format and EVERY buffer, decoding with the library's "
+             "tables (REGENERATED on every run) cannot fail and reports under each of the library's names exactly what a reader of the standard "
+             "finds at that position (generic theorem table_reads_standard + a decidable per-field condition evaluated by vm_compute). The "
+             "skeletons of the decoders (which tables, VPD page codes, page cut, list start / length bytes / base / stride) are REGENERATED and "
+             "compared with the specification; for REPORT LUNS, GET LBA STATUS and PR IN READ KEYS a generic theorem shows that for every "
+             "descriptor count and content the list is returned whole, in order, nothing beyond the reported length. All 26 response kinds "
+             "(incl. designators, TransportIDs, READ ELEMENT STATUS pages, RTPG groups, mode pages) are generated by an independent conformant "
+             "device (tools/spec_resp.py) and decoded by the real parsers on every run.",
+        ref="DESIGN.md §4 C04",
+        note="Trusted: Coq kernel + vm_compute; translator (validated by reflection); Spec/RespFormats.v = tools/spec_formats.py and the list "
+             "rules of tools/spec_resp.py (my reading of the standards). Partial: the loop structure of the nested decoders (RTPG, READ ELEMENT "
+             "STATUS, READ FULL STATUS, device identification, MODE SENSE page walk, READ CD) is decided by the conformant-device runs, not by a "
+             "theorem; their tables are covered by the field theorem. READ CD sector layouts are not covered. Known finding: MODE SENSE decodes "
+             "only the first mode page.",
+        technique="Coq proof by reflection over regenerated tables and decoder skeletons + generic list theorem + conformant-device runs"),
     "C10": dict(
         text="Machine-checked proof (Coq 8.16.1) of the codec laws for every buffer size, every contiguous mask at any "
              "alignment, every offset, every in-range value, every field order and arbitrary prior contents "
